@@ -303,7 +303,8 @@ PROPS['C03'] = dict(
                 'through GetMappedValue / GetValue / ConvertValue and the attached transform parameters are read, under ASan.'),
     level_note='Same input space as C02; evidence reports how many corrupted streams were accepted (these are the interesting cases).',
     rule=_HOSTILE_RULE + 'Non-trivial = decode returned OK and the validator ran; distinct = hash of (bytes, entry point, skip set).',
-    runs=[dict(variant='asan', harness='c02_decode_hostile', prop='C03', cases=dict(quick=270491 + 90000, thorough=8965921 + 2000000), cpu_budget=20)],
+    # UBSan is not fatal here: undefined behaviour while decoding is C02's verdict; C03 judges the returned geometry (ASan stays fatal for the read-everything pass).
+    runs=[dict(variant='asan', harness='c02_decode_hostile', prop='C03', cases=dict(quick=270491 + 90000, thorough=8965921 + 2000000), cpu_budget=20, ubsan_fatal=False)],
     min_nontrivial=20000,
     require_counters={'accepted_corrupted_streams': 50000, 'decode_ok/geometry/tamper': 5000, 'decode_ok/geometry/bytes': 40000, 'decode_ok/keyframes/bytes': 4000},
     assumptions=[],
